@@ -59,6 +59,11 @@ def run(rep):
     for c in c03.cases_for(rng, 40 if quick else 500, 5):
         c["id"] = len(cases)
         cases.append(c)
+    # the same semantics when the rules are distributed over a chain of grammar files (cfg split3)
+    from . import c19
+    for c in c19.chain_cases(rng, 15 if quick else 150, 6):
+        c["id"] = len(cases)
+        cases.append(c)
     info, stats = P.judge_cases(rep, PID, cases, label="random")
     rep.bounds["random"] = stats
 
